@@ -17,7 +17,8 @@ Tie of the protocol model to the code:
   (4) stress  2..64 goroutines x rounds on plain + shared child + isolated child + isolated grandchild with
               GOMAXPROCS in {1,2,4,8,16}: every call under recover; afterwards the recorded multiset of calls and
               the final observations of every context are decided by the Lean history monitor
-              (`Goat.ScopeSignal.conforms`, the quiescent reading of the theorems); Wait/Close must report the
+              (`Goat.ScopeSignal.conforms`; `Goat.C12.monitor_sound` proves that every history the model can
+              produce at quiescence is accepted, so a rejection contradicts the theorems); Wait/Close must report the
               error; the same under the race detector (a reported race on the error list / done channel counts).
 Spec-vs-implementation: every clause above is evaluated on the implementation alone (panic counters, the monitor,
 `_spec_seq` below recomputes the expected answers of a sequential case from its op tokens without the model).
@@ -36,7 +37,8 @@ META = dict(
              "accesses of AppendError/Kill/Stop/IsDone/Err/NewChild/Close: close(done) at most once, the held errors "
              "are a permutation of the appended ones at quiescence (stored + in flight = appended at any time), done "
              "iff stopped or error, no wait-group counter negative, the propagation goroutine acts once and only when "
-             "justified; the pre-fix code's double close and negative counter are proved reachable.  Tied to the "
+             "justified, the stress harness' history monitor accepts every quiescent history of the model; the pre-fix "
+             "code's double close and negative counter are proved reachable.  Tied to the "
              "code by go/ast facts on the lock / Once / channel skeleton checked by `decide`, a gated deterministic "
              "replay of the check-then-act windows, a sequential differential and a concurrent stress decided by a "
              "Lean history monitor.",
@@ -78,6 +80,10 @@ def _facts(ctx, go, repo):
 def _pair(ctx, go, model, ops, tag):
     a, b = ctx.path(tag + ".impl"), ctx.path(tag + ".model")
     rc, err = ctx.run_lines(go, ["drive"], ops, a, timeout=TMO)
+    if "hook call sites absent" in err and not any("hook call sites" in n for n in ctx.notes):
+        ctx.notes.append("the repository under test lacks the verif hook call sites of the context scopes (a tree "
+                         "older than the hook commit): the gated scenarios run ungated and the sequential driver "
+                         "settles propagation goroutines by a 20 ms pause instead of observing them")
     if rc != 0:
         # the process under test died: a panic in goatcore's own propagation goroutine cannot be recovered by
         # the harness; the case being executed is the first one without a result line
@@ -320,10 +326,10 @@ def _run(ctx, go):
     ctx.extra["facts"] = [l for l in facts.split("\n") if l.startswith("def ")]
     failed = ctx.lean_obligations(extra_modules=["Goat.Tie.C12"])
     model = ctx.build_model("m_scopesig")
-    n_seq = ctx.pick(6000, 160000)
-    rounds = ctx.pick(2500, 10000)
-    race_rounds = ctx.pick(500, 4000)
-    nshards = ctx.pick(4, 12)
+    n_seq = ctx.pick(6000, 400000)
+    rounds = ctx.pick(2500, 30000)
+    race_rounds = ctx.pick(500, 12000)
+    nshards = ctx.pick(4, 14)
     ctx.rule = ("gated: 6 two-goroutine scenarios x {plain, isolated}, both goroutines parked right after the IsDone "
                 "test by the verif hook, then released (deterministic).  seq: corpus/C12 + %d generated cases (forest "
                 "of 1..4 contexts, each plain or isolated under an earlier one; 4..25 operations AppendError with 0..3 "
